@@ -85,11 +85,14 @@ static void part_objects() {
     const double AS[] = {9.313225746154785e-10, 2.98023223876953125e-08, 3.0517578125e-05, 0.0009765625, 0.03125};
     int idx = 0; for (int n : {8, 9}) for (int k : {1, 2}) for (auto lb : {std::pair<int, int>{2, 10}, {3, 7}}) for (auto tb : {std::pair<int, int>{8, 2}, {16, 1}, {4, 4}, {2, 1}, {1, 2}}) { if ((idx++ % 3) != 0 && quick() && tb.first > 2) continue; sets.push_back({strdup(fmt("small-n%d-k%d-l%d-t%d", n, k, lb.first, tb.first).c_str()), 0, n, k, lb.first, lb.second, tb.first, tb.second, AS[(idx / 2) % 5], AS[(idx / 3 + 1) % 5]}); }
     int K = (int)opti("K", quick() ? 2 : 8);
-    for (auto &P : sets) for (int seed = 0; seed < (P.lam ? (quick() ? 1 : 4) : K); seed++) {
+    for (auto &P : sets) for (int seed = 0; seed < (P.lam ? (quick() ? 2 : 4) : K); seed++) {
         std::string key = fmt("objects/%s/seed=%d", P.name, seed);
         if (!take(key)) continue; if (deadline()) return; current(key);
         Fate f = forked([&] {
             uint32_t sd[3] = {(uint32_t)S().seed, (uint32_t)seed, (uint32_t)fnv(P.name, strlen(P.name))}; tfhe_random_generator_setSeed(sd, 3);
+            if (seed & 1) { // odd seeds: another key set with other noise levels is generated first in this process (key generation must not remember an earlier configuration)
+                LweParams *lp0 = new_LweParams(5, 0.001, 0.25); TLweParams *tp0 = new_TLweParams(1024, P.lam ? 2 : 1, 3e-6, 0.25); TGswParams *gp0 = new_TGswParams(2, 8, tp0); TFheGateBootstrappingParameterSet *ps0 = new TFheGateBootstrappingParameterSet(3, 3, lp0, gp0);
+                TFheGateBootstrappingSecretKeySet *sk0 = new_random_gate_bootstrapping_secret_keyset(ps0); LweSample *c0 = new_gate_bootstrapping_ciphertext(ps0); bootsSymEncrypt(c0, 1, sk0); delete_gate_bootstrapping_ciphertext(c0); delete_gate_bootstrapping_secret_keyset(sk0); }
             TFheGateBootstrappingParameterSet *ps; if (P.lam) ps = new_default_gate_bootstrapping_parameters(P.lam); else { LweParams *lp = new_LweParams(P.n, P.aks, 0.25); TLweParams *tp = new_TLweParams(1024, P.k, P.abk, 0.25); TGswParams *gp = new_TGswParams(P.l, P.Bgbit, tp); ps = new TFheGateBootstrappingParameterSet(P.t, P.bb, lp, gp); }
             g_hits = 0; g_armed = 1; TFheGateBootstrappingSecretKeySet *sk = new_random_gate_bootstrapping_secret_keyset(ps);
             LweSample *fresh = new_gate_bootstrapping_ciphertext_array(64, ps); for (int q = 0; q < 64; q++) bootsSymEncrypt(fresh + q, q & 1, sk); g_armed = 0;
